@@ -16,8 +16,8 @@ SPEC = {
     ],
     "exhaustive_note": "campaign 'exhaustive': every sequence of length <= 4 (quick) / <= 5 (thorough) over the 12-command alphabet of props/c16/exhaustive_test.go from one fixed start state",
     "campaigns": [
-        {"name": "catalogue", "run": "^TestCatalogue$", "quick": B(2000, 5), "thorough": B(30000, 7, 3000)},
-        {"name": "catalogue_broad", "run": "^TestCatalogueBroad$", "quick": B(1200, 3), "thorough": B(30000, 4, 3000)},
+        {"name": "catalogue", "run": "^TestCatalogue$", "quick": B(4000, 5), "thorough": B(30000, 7, 3000)},
+        {"name": "catalogue_broad", "run": "^TestCatalogueBroad$", "quick": B(2400, 3), "thorough": B(30000, 4, 3000)},
         {"name": "exhaustive", "run": "^TestExhaustive$", "quick": B(1, 4, env={"C16_EXHAUSTIVE_LEN": 4}), "thorough": B(1, 5, 3000, env={"C16_EXHAUSTIVE_LEN": 5})},
     ],
 }
